@@ -14,6 +14,9 @@ def jobs(tier):
                                   "vnacal_new_add_double_reflect_m", "build_connectivity_matrix", "add_equation"],
                        bound="scenario %d of harness/vnacal/c03_add.c (concrete shapes/arguments, symbolic measured values)" % sc,
                        timeout=200))
+    J.append(V.Job("zero_frequencies", "vnacal/c03_add.c", "h_zero_frequencies", C20.BASE, defines=C20.CUT, unwind=14,
+                   union_struct=True, kind="bounded", functions=["vnacal_new_alloc", "vnacal_new_set_frequency_vector"],
+                   bound="T8 2x2 calibration with 0 frequencies", timeout=200))
     srcs_solve = sorted(set(C20.BASE + C20.SOLVE + C20.common_sources() + ["vnacal_make_unknown_parameter.c"]))
     for t in ("VNACAL_T8", "VNACAL_UE14"):
         J.append(V.Job("update_s_partial.%s" % t[7:], "vnacal/c20.c", "h_update_s_partial", srcs_solve,
